@@ -57,7 +57,7 @@ CHECKS = {
              "order). Theorems for every schedule, k and N: never more than N running (not even transiently), the start "
              "loop fills min(N, running+ready) slots, printed output is always the complete blocks of children 0..cur-1 "
              "in layer order, a pass prints every leading done child. Tied to the real resume_tests and the real result "
-             "collectors by a fake spawn whose completion order is scripted (all k! orders for small k).  The run's failure and error lists are the layers' lists in layer order for every schedule (Props/C06Order: printed_eq, C06_outcomes_in_layer_order, C06_outcomes_complete; the code before 4ea7031 is witnessed to list them in completion order, C06_D46_witness), compared with the lists the real resume_tests leaves behind.",
+             "collectors by a fake spawn whose completion order is scripted (all k! orders for small k).  The run's failure and error lists are the layers' lists in layer order for every schedule (Props/C06Order: printed_eq, C06_outcomes_in_layer_order, C06_outcomes_complete, C06_all_displayed; the code before 4ea7031 is witnessed to list them in completion order, C06_D46_witness), compared with the lists the real resume_tests leaves behind.",
         note="OS scheduling, reaping of children and the 10 ms polling are runtime; the equality with the sequential run "
              "is proved for test-level outcomes under the stated hypotheses (layer set-up faults indexed by call count can "
              "legitimately differ between modes) and monitored on the -j N world runs (shuffle_modes, C02/C03/C12); a test's "
